@@ -11,6 +11,7 @@ Hypothesis H4 : tp_host_pins_root_cas P = true.
 Hypothesis H5 : tp_plugin_requires_client P = true.
 Hypothesis H6 : tp_plugin_pins_client_cas P = true.
 Hypothesis H7 : tp_broker_serves_with_tls P = true.
+Hypothesis H8 : tp_pools_only_pinned P = true.
 
 (* on every path the serving side has a TLS config that requires a client certificate and pins exactly the
    legitimate peer's one-time certificate *)
@@ -20,7 +21,7 @@ Theorem every_path_mutual (announced : option key) (p : path) :
                              | HostBrokered => match announced with Some k => [k] | None => [] end
                              | _ => [host_key] end.
 Proof.
-  unfold server_cfg, host_cfg, plugin_cfg. rewrite H1, H2, H3, H5, H6, H7.
+  unfold server_cfg, host_cfg, plugin_cfg, pool. rewrite H1, H2, H3, H5, H6, H7, H8.
   destruct p; eexists; repeat split; try reflexivity; destruct announced; reflexivity.
 Qed.
 
@@ -33,7 +34,7 @@ Theorem only_legit_served announced p x :
   | _ => x = TLSCert host_key
   end.
 Proof.
-  unfold server_cfg, host_cfg, plugin_cfg. rewrite H1, H2, H3, H5, H6, H7.
+  unfold server_cfg, host_cfg, plugin_cfg, pool. rewrite H1, H2, H3, H5, H6, H7, H8.
   destruct p; destruct x as [| |k]; simpl; try discriminate;
     try (destruct (Nat.eqb_spec k host_key); [intros _; subst; reflexivity|discriminate]).
   destruct announced as [a|]; simpl; [|discriminate].
@@ -45,7 +46,7 @@ Theorem host_pins_announced announced p s :
   p <> HostBrokered -> client_accepts (client_cfg P announced p) (Some s) = true ->
   exists k, announced = Some k /\ t_own s = Some k.
 Proof.
-  intros Hp. unfold client_cfg, host_cfg. rewrite H1, H2, H3, H4.
+  intros Hp. unfold client_cfg, host_cfg, pool. rewrite H1, H2, H3, H4, H8.
   destruct p; try congruence; simpl; destruct (t_own s) as [k|]; try discriminate;
     destruct announced as [a|]; simpl; try discriminate;
     (destruct (Nat.eqb_spec k a); [intros _; subst; eauto|discriminate]).
@@ -58,7 +59,7 @@ Theorem legit_pair_accepted p :
   server_accepts (server_cfg P announced p) legit = true /\
   client_accepts (client_cfg P announced p) (server_cfg P announced p) = true.
 Proof.
-  unfold server_cfg, client_cfg, host_cfg, plugin_cfg. rewrite H1, H2, H3, H4, H5, H6, H7.
+  unfold server_cfg, client_cfg, host_cfg, plugin_cfg, pool. rewrite H1, H2, H3, H4, H5, H6, H7, H8.
   destruct p; split; reflexivity.
 Qed.
 
